@@ -449,6 +449,71 @@ void vrhe_case(Env &c, SplitMix &g, size_t n, uint64_t cidx, bool thorough)
 }
 
 
+
+// ================================================================ PUB-ROT-ZK on its own: c_k = g^{alpha_{k-r}} h^{s_k}
+struct RotStmt { size_t n, r; ZV s, alpha, c; };
+Side rot_prove(Env &c, HooghSchoenmakersSkoricVillegasPUBROTZK &Z_, int mode, RotStmt &st, const std::string &input, const std::vector<unsigned char> &script = std::vector<unsigned char>())
+{
+	std::vector<mpz_ptr> s = ptrs(st.s), al = ptrs(st.alpha), cc = ptrs(st.c);
+	return run_side(c, [&](std::istream &in, std::ostream &out) {
+		if (mode == INTER) Z_.Prove_interactive(st.r, s, al, cc, in, out);
+		else if (mode == PC) Z_.Prove_interactive_publiccoin(st.r, s, al, cc, c.eP.get(), in, out);
+		else Z_.Prove_noninteractive(st.r, s, al, cc, out);
+		return std::string("1"); }, input, script);
+}
+Side rot_verify(Env &c, HooghSchoenmakersSkoricVillegasPUBROTZK &Z_, int mode, RotStmt &st, const std::string &input, const std::vector<unsigned char> &script)
+{
+	std::vector<mpz_ptr> al = ptrs(st.alpha), cc = ptrs(st.c);
+	return run_side(c, [&](std::istream &in, std::ostream &out) {
+		bool ok;
+		if (mode == INTER) ok = Z_.Verify_interactive(al, cc, in, out);
+		else if (mode == PC) ok = Z_.Verify_interactive_publiccoin(al, cc, c.eV.get(), in, out);
+		else ok = Z_.Verify_noninteractive(al, cc, in);
+		return b2s(ok); }, input, script);
+}
+void rot_case(Env &c, SplitMix &g, size_t n, uint64_t cidx)
+{
+	HooghSchoenmakersSkoricVillegasPUBROTZK ZP(c.A->p, c.A->q, c.A->g, c.A->h), ZV_(c.B->p, c.B->q, c.B->g, c.B->h);
+	RotStmt st; st.n = n; st.r = g.below(n); st.s.assign(n, Z()); st.alpha.assign(n, Z()); st.c.assign(n, Z());
+	for (size_t i = 0; i < n; i++) { gen_below(st.s[i], g, c.A->q); gen_below(st.alpha[i], g, c.A->q); }
+	auto commit = [&](RotStmt &t, const std::vector<size_t> &src) { for (size_t k = 0; k < n; k++) { Z a, b; mpz_powm(a, c.A->g, t.alpha[src[k]], c.A->p); mpz_powm(b, c.A->h, t.s[k], c.A->p); mpz_mul(t.c[k], a, b); mpz_mod(t.c[k], t.c[k], c.A->p); } };
+	std::vector<size_t> src(n); for (size_t k = 0; k < n; k++) src[k] = (k + n - st.r) % n;
+	commit(st, src);
+	auto emitP = [&](int mode, RotStmt &t, const std::vector<std::string> &peer, const Side &s, const std::string &tag) {
+		emit(std::string("args.rot.prove.") + mode_name[mode] + " " + c.pqgh() + " " + std::to_string(t.r) + " " + zlist(t.s) + " " + zlist(t.alpha) + " " + zlist(t.c) + " " + s.coins + " " + dec_lines(peer) + " " + s.log + " " + c.crs(mode) + " tag:" + tag + " => " + s.verdict + " " + dec_lines(s.lines)); };
+	auto emitV = [&](int mode, RotStmt &t, const std::vector<std::string> &peer, const Side &s, const std::string &tag) {
+		emit(std::string("args.rot.verify.") + mode_name[mode] + " " + c.pqgh() + " " + zlist(t.alpha) + " " + zlist(t.c) + " " + s.coins + " " + dec_lines(peer) + " 0 " + s.log + " " + c.crs(mode) + " tag:" + tag + " => " + s.verdict + " " + dec_lines(s.lines)); };
+	auto one = [&](int mode, RotStmt &t, const std::string &tag, bool cheat, size_t nmut) {
+		Chal ch = make_chal(c, g, mode, n + 1);
+		Side P = rot_prove(c, ZP, mode, t, join_lines(ch.lines)); emitP(mode, t, ch.lines, P, tag);
+		Side V = rot_verify(c, ZV_, mode, t, join_lines(P.lines), ch.script); emitV(mode, t, P.lines, V, tag);
+		if (cheat) return;
+		std::vector<std::pair<std::string, size_t> > fields = rot_fields(mode, n); if (fields.size() != P.lines.size()) return;
+		ZV vals = values_of(P.lines);
+		for (size_t m = 0; m < nmut; m++) {
+			size_t pos = g.below(fields.size()); Z v; mpz_set(v, vals[pos]); std::string nm;
+			if (!mutate(g, (int)g.below(NMUT), v, c, nm)) continue;
+			std::vector<std::string> L = P.lines; L[pos] = b62(v);
+			Side W = rot_verify(c, ZV_, mode, t, join_lines(L), ch.script); emitV(mode, t, L, W, "mut:" + fields[pos].first + ":" + nm);
+		}
+		for (size_t m = 0; m < nmut / 2; m++) { // statement: alpha_i and c_i
+			RotStmt u = t; bool onc = g.coin(); size_t i = g.below(n); std::string nm;
+			if (!mutate(g, (int)g.below(NMUT), onc ? u.c[i].v : u.alpha[i].v, c, nm)) continue;
+			if (!unit_mod_p(c, u.c[i])) continue;   // a multiple of p under a negative exponent traps in GMP
+			// alpha_i + q is the same exponent (only used modulo q ... and hashed in the non-interactive mode)
+			std::string tag2 = std::string("mut:") + (onc ? "c" : "alpha") + ":" + nm;
+			if (!onc && nm == "plusq" && mode != NI) tag2 = "equiv:alpha:plusq";
+			if (onc && nm == "plusp" && mode != NI) tag2 = "equiv:c:plusp";
+			Side W = rot_verify(c, ZV_, mode, u, join_lines(P.lines), ch.script); emitV(mode, u, P.lines, W, tag2);
+		}
+	};
+	for (int mode = 0; mode < 3; mode++) one(mode, st, "honest", false, n >= 16 ? 2 : 6);
+	// false statements: the commitments are no rotation of alpha
+	if (n >= 3) { RotStmt t = st; std::vector<size_t> s2 = src; size_t j = g.below(n), j2 = (j + 1 + g.below(n - 1)) % n; std::swap(s2[j], s2[j2]); commit(t, s2); one((int)(cidx % 3), t, "cheat:noncyclic-commitments", true, 0); }
+	{ RotStmt t = st; rand_elem(c, g, t.c[g.below(n)]); one((int)((cidx + 1) % 3), t, "cheat:replaced-commitment", true, 0); }
+	{ RotStmt t = st; size_t j = g.below(n); gen_below(t.alpha[j], g, c.A->q); one((int)((cidx + 2) % 3), t, "cheat:other-alpha", true, 0); }
+}
+
 // ================================================================ Groth's shuffle argument
 void make_groth(Env &c, size_t n)
 {
@@ -747,6 +812,7 @@ int drv_args(const Opts &o)
 			emit(std::string("args.vrhe.verify.noninteractive ") + c.pqgh() + " " + cards(st.X1, st.X2) + " " + cards(st.Y1, st.Y2) + " [] [] 0 [] [] tag:one-card => " + P.verdict);
 		}
 		vrhe_case(c, g, n, cidx, thorough);
+		rot_case(c, g, n, cidx);
 		{ Env d; make_env(d, g, cidx, thorough, n, true); groth_case(d, g, n, cidx, thorough); }
 	}
 	return 0;
